@@ -442,6 +442,80 @@ func runC14(c *Ctx) {
 		c.verdict(len(iters) == 2 && len(bad) == 0, c.nm(fn)+" | both source iterators cover [index(startHeight), index(endHeight)]", c.P.Pos(fn.Pos()), "2 iterators bounded by the region's own heights", join(bad)+fmt.Sprintf(" (%d iterators)", len(iters)), c.ats(iters)...)
 	})
 
+	c.rule("C14.V5", "a region is not reported done before the source is exhausted: appendNewHeaders returns success only after the import source itself said that there is no further batch (processBatch = io.EOF), or on an edge where a running height / index is known to be strictly greater than the region's inclusive end (endHeight, or its source index); after a batch was written every other way to the success return leads through another processBatch call (an exit on 'position >= end' leaves the header at the end of the range out whenever the last batch holds exactly one header, and Import reports the whole range as added)", func() {
+		fn := c.fn(fnAppendNH)
+		eof := c.P.Pkg("io").Scope().Lookup("EOF")
+		conv := c.funcObj("chainimport", "targetHeightToImportSourceIndex")
+		if eof == nil {
+			panic(anchorErr{"io.EOF"})
+		}
+		isEOF := func(v ssa.Value) bool {
+			u, ok := ir.Strip(v).(*ssa.UnOp)
+			if !ok || u.Op != token.MUL {
+				return false
+			}
+			g, ok := u.X.(*ssa.Global)
+			return ok && g.Object() == eof
+		}
+		pb := find(fn, callTo(hi("processBatch")))
+		construct := c.nm(fn) + " | success only after the source is exhausted"
+		if len(pb) == 0 {
+			c.undecided(construct, c.P.Pos(fn.Pos()), "no processBatch call in appendNewHeaders")
+			return
+		}
+		// the inclusive end of the region: the endHeight parameter or its source index
+		isEnd := func(v ssa.Value) bool {
+			v = ir.Strip(v)
+			if paramOrSpill(fn.Params[3])(v) {
+				return true
+			}
+			call, ok := v.(*ssa.Call)
+			return ok && callTo(conv)(call) && len(call.Call.Args) == 2 && paramOrSpill(fn.Params[3])(ir.Strip(call.Call.Args[0]))
+		}
+		notEnd := func(v ssa.Value) bool { return !isEnd(v) }
+		past, odd := relGuard("position > inclusive end", fn, notEnd, isEnd, token.GTR)
+		if len(odd) > 0 {
+			c.fail(construct, c.P.Pos(fn.Pos()), "a running position is compared with the region's inclusive end by "+join(odd)+": the batch loop can be left with the header at the end of the range unwritten")
+			return
+		}
+		cut := past.cut()
+		// err == io.EOF edges
+		for _, cmp := range find(fn, binops(eqOps, isEOF, func(ssa.Value) bool { return true })) {
+			for _, b := range ir.EqBranches(cmp.(*ssa.BinOp)) {
+				if b.Pol >= 0 {
+					cut[b.Edge()] = true
+				}
+			}
+		}
+		isPB := func(in ssa.Instruction) bool {
+			for _, x := range pb {
+				if x == in {
+					return true
+				}
+			}
+			return false
+		}
+		var bad, sites []string
+		for _, call := range pb {
+			s := afterInstr(c, call)
+			sites = append(sites, "from:"+s.desc)
+			ir.WalkCtx(s.b, s.idx, s.pred, cut, func(in ssa.Instruction) bool {
+				if isPB(in) {
+					return false
+				}
+				if r, ok := in.(*ssa.Return); ok {
+					if len(r.Results) == 1 && ir.IsNil(r.Results[0]) {
+						bad = append(bad, fmt.Sprintf("success return at %s reachable after the batch of %s without io.EOF from the source and without position > end", c.at(in), c.at(call)))
+					}
+					return false
+				}
+				return true
+			})
+		}
+		sort.Strings(bad)
+		c.verdict(len(bad) == 0, construct, c.P.Pos(fn.Pos()), fmt.Sprintf("%d processBatch call(s); success is returned only behind io.EOF or position > end", len(pb)), join(bad), sites...)
+	})
+
 	c.rule("C14.V4", "repeating an import changes nothing: the regions of an Import call are worked out from the target stores as they are in that call - in determineProcessingRegions the two tip heights (the ones handed to determineDivergenceSyncModes and used for the region bounds) are the height results of TargetBlockHeaderStore.ChainTip() and TargetFilterHeaderStore.ChainTip() called there, on every path; tips remembered from an earlier call make a second Import on the same importer append the same headers again", func() {
 		fn := c.fn("(*chainimport.headersImport).determineProcessingRegions")
 		optB := c.field("chainimport", "ImportOptions", "TargetBlockHeaderStore")
